@@ -8,7 +8,10 @@ import (
 	"go/ast"
 	"go/parser"
 	"go/token"
+	"os"
+	"path/filepath"
 	"reflect"
+	"sort"
 	"strconv"
 	"strings"
 )
@@ -25,7 +28,172 @@ func Parse(path string) (*File, error) {
 	if err != nil {
 		return nil, err
 	}
+	registerDir(filepath.Dir(path))
 	return &File{Fset: fs, AST: f, Path: path}, nil
+}
+
+// ---- helper inlining ---------------------------------------------------------------------------
+//
+// A skeleton obligation (`Generated = Expected`) should not break when a statement group is merely
+// moved into a NEW helper function ("extract method", the commonest harmless refactor).  Functions
+// that exist in the vetted baseline (baseline_funcs.txt, written once with `extract -write-baseline`)
+// keep appearing by name; a call of a same-package function that is NOT in the baseline is replaced by
+// the skeleton of its body, parameters and receiver substituted by the argument expressions, its
+// final `return` dropped.  `defer h()` / `go h()` are never inlined (their timing is the point).
+
+var (
+	RepoRoot string          // set by cmd/extract
+	Baseline map[string]bool // "rel/dir:name"; nil disables inlining
+	dirFuncs = map[string]map[string][]*ast.FuncDecl{}
+)
+
+func relDir(dir string) string {
+	if RepoRoot != "" {
+		if r, err := filepath.Rel(RepoRoot, dir); err == nil {
+			return filepath.ToSlash(r)
+		}
+	}
+	return filepath.ToSlash(dir)
+}
+
+func registerDir(dir string) {
+	if _, ok := dirFuncs[dir]; ok {
+		return
+	}
+	m := map[string][]*ast.FuncDecl{}
+	dirFuncs[dir] = m
+	ents, err := os.ReadDir(dir)
+	if err != nil {
+		return
+	}
+	for _, e := range ents {
+		n := e.Name()
+		if e.IsDir() || !strings.HasSuffix(n, ".go") || strings.HasSuffix(n, "_test.go") {
+			continue
+		}
+		f, err := parser.ParseFile(token.NewFileSet(), filepath.Join(dir, n), nil, parser.SkipObjectResolution)
+		if err != nil {
+			continue
+		}
+		for _, d := range f.Decls {
+			if fd, ok := d.(*ast.FuncDecl); ok && fd.Body != nil {
+				m[fd.Name.Name] = append(m[fd.Name.Name], fd)
+				declDir[fd] = dir
+			}
+		}
+	}
+}
+
+var declDir = map[*ast.FuncDecl]string{}
+
+// BaselineLines lists "rel/dir:name<TAB>Recv.name<TAB>recv,p1,p2…" for every function of every
+// directory parsed so far (the names a function's receiver and parameters have in the vetted tree).
+func BaselineLines() []string {
+	var out []string
+	for dir, m := range dirFuncs {
+		for name, fds := range m {
+			for _, fd := range fds {
+				out = append(out, relDir(dir)+":"+name+"\t"+qualName(fd)+"\t"+strings.Join(bindingNames(fd), ","))
+			}
+		}
+	}
+	sort.Strings(out)
+	return out
+}
+
+// BaselineParams: "rel/dir:Recv.name" -> receiver and parameter names in the vetted tree.
+var BaselineParams = map[string][]string{}
+
+// LoadBaseline parses the text written from BaselineLines.
+func LoadBaseline(text string) {
+	Baseline = map[string]bool{}
+	for _, l := range strings.Split(text, "\n") {
+		f := strings.Split(strings.TrimRight(l, "\r"), "\t")
+		if len(f) == 0 || f[0] == "" {
+			continue
+		}
+		Baseline[f[0]] = true
+		if len(f) == 3 {
+			dir := f[0][:strings.LastIndex(f[0], ":")]
+			BaselineParams[dir+":"+f[1]] = strings.Split(f[2], ",")
+		}
+	}
+}
+
+func qualName(fd *ast.FuncDecl) string {
+	if fd.Recv != nil && len(fd.Recv.List) == 1 {
+		return typeName(fd.Recv.List[0].Type) + "." + fd.Name.Name
+	}
+	return fd.Name.Name
+}
+
+// bindingNames: receiver name (or "") followed by the parameter names, in order.
+func bindingNames(fd *ast.FuncDecl) []string {
+	out := []string{""}
+	if fd.Recv != nil && len(fd.Recv.List) == 1 && len(fd.Recv.List[0].Names) == 1 {
+		out[0] = fd.Recv.List[0].Names[0].Name
+	}
+	if fd.Type.Params != nil {
+		for _, p := range fd.Type.Params.List {
+			for _, n := range p.Names {
+				out = append(out, n.Name)
+			}
+		}
+	}
+	return out
+}
+
+// paramRenaming: a function whose receiver / parameters were merely renamed since the vetted tree is
+// printed with the vetted names (same number of bindings; no clash with another name of the body).
+func paramRenaming(dir string, fd *ast.FuncDecl) map[string]string {
+	if Baseline == nil || dir == "" {
+		return nil
+	}
+	old, ok := BaselineParams[relDir(dir)+":"+qualName(fd)]
+	cur := bindingNames(fd)
+	if !ok || len(old) != len(cur) {
+		return nil
+	}
+	ren := map[string]string{}
+	for i := range cur {
+		if cur[i] != old[i] && cur[i] != "" && cur[i] != "_" && old[i] != "" && old[i] != "_" {
+			ren[cur[i]] = old[i]
+		}
+	}
+	if len(ren) == 0 {
+		return nil
+	}
+	used := map[string]bool{}
+	ast.Inspect(fd.Body, func(n ast.Node) bool {
+		if id, ok := n.(*ast.Ident); ok {
+			used[id.Name] = true
+		}
+		return true
+	})
+	for from, to := range ren {
+		if used[to] && ren[to] == "" {
+			_ = from
+			return nil // the vetted name now means something else in this body
+		}
+	}
+	return ren
+}
+
+// newHelper: the unique same-package function `name` (method iff isMethod) that is not in the baseline.
+func newHelper(dir, name string, isMethod bool) *ast.FuncDecl {
+	if Baseline == nil || dir == "" || Baseline[relDir(dir)+":"+name] {
+		return nil
+	}
+	var found *ast.FuncDecl
+	for _, fd := range dirFuncs[dir][name] {
+		if (fd.Recv != nil) == isMethod {
+			if found != nil {
+				return nil
+			}
+			found = fd
+		}
+	}
+	return found
 }
 
 // Const returns the source text of the value of a package-level constant or variable.
@@ -118,11 +286,17 @@ func (f *File) StructTags(typ, key string) ([][2]string, error) {
 }
 
 // ExprString prints an expression compactly (identifiers, selectors, literals, calls, unary/binary).
-func ExprString(e ast.Expr) string {
+func ExprString(e ast.Expr) string { return exprStr(e, nil) }
+
+func exprStr(e ast.Expr, ren map[string]string) string {
+	ExprString := func(x ast.Expr) string { return exprStr(x, ren) }
 	switch t := e.(type) {
 	case nil:
 		return ""
 	case *ast.Ident:
+		if v, ok := ren[t.Name]; ok {
+			return v
+		}
 		return t.Name
 	case *ast.BasicLit:
 		return t.Value
@@ -166,14 +340,116 @@ func ExprString(e ast.Expr) string {
 // Calls to the logging package and pure conversions are dropped. Conditions are kept verbatim
 // (compact form) because the properties depend on them.
 func Skeleton(fd *ast.FuncDecl) []string {
-	s := &skel{}
+	s := &skel{dir: declDirOf(fd)}
 	if fd.Body != nil {
+		s.ren = paramRenaming(s.dir, fd)
 		s.block(fd.Body)
 	}
 	return s.out
 }
 
-type skel struct{ out []string }
+// declDirOf: the directory a declaration was parsed from (declarations handed out by File.Func come
+// from a different parse than the registry's: match by name and position-independent identity).
+func declDirOf(fd *ast.FuncDecl) string {
+	if d, ok := declDir[fd]; ok {
+		return d
+	}
+	for dir, m := range dirFuncs {
+		for _, c := range m[fd.Name.Name] {
+			if (c.Recv != nil) == (fd.Recv != nil) && len(c.Body.List) == len(fd.Body.List) && ExprString2(c) == ExprString2(fd) {
+				return dir
+			}
+		}
+	}
+	return ""
+}
+
+func ExprString2(fd *ast.FuncDecl) string {
+	r := ""
+	if fd.Recv != nil && len(fd.Recv.List) == 1 {
+		r = typeName(fd.Recv.List[0].Type)
+	}
+	var ps []string
+	if fd.Type.Params != nil {
+		for _, p := range fd.Type.Params.List {
+			for _, n := range p.Names {
+				ps = append(ps, n.Name+":"+ExprString(p.Type))
+			}
+		}
+	}
+	return r + "." + fd.Name.Name + "(" + strings.Join(ps, ",") + ")"
+}
+
+type skel struct {
+	out     []string
+	dir     string
+	ren     map[string]string
+	depth   int
+	inlined int // tokens that came from inlined helper bodies (they do not make a `return` a `return^`)
+}
+
+func (s *skel) str(e ast.Expr) string { return exprStr(e, s.ren) }
+
+// inline: replace a call of a new helper by its body's skeleton; false if the callee is not one.
+func (s *skel) inline(call *ast.CallExpr) bool {
+	if s.depth >= 3 {
+		return false
+	}
+	var h *ast.FuncDecl
+	var recvExpr ast.Expr
+	switch f := call.Fun.(type) {
+	case *ast.Ident:
+		h = newHelper(s.dir, f.Name, false)
+	case *ast.SelectorExpr:
+		if _, ok := f.X.(*ast.Ident); ok {
+			h = newHelper(s.dir, f.Sel.Name, true)
+			recvExpr = f.X
+		}
+	}
+	if h == nil || h.Type.Params == nil && len(call.Args) > 0 {
+		return false
+	}
+	ren := map[string]string{}
+	for k, v := range s.ren {
+		ren[k] = v
+	}
+	var params []string
+	if h.Type.Params != nil {
+		for _, p := range h.Type.Params.List {
+			for _, n := range p.Names {
+				params = append(params, n.Name)
+			}
+		}
+	}
+	if len(params) != len(call.Args) {
+		return false
+	}
+	for i, a := range call.Args {
+		ren[params[i]] = s.str(a)
+	}
+	if recvExpr != nil && h.Recv != nil && len(h.Recv.List) == 1 && len(h.Recv.List[0].Names) == 1 {
+		ren[h.Recv.List[0].Names[0].Name] = s.str(recvExpr)
+	}
+	sub := &skel{dir: s.dir, ren: ren, depth: s.depth + 1}
+	body := h.Body.List
+	if n := len(body); n > 0 {
+		if rs, ok := body[n-1].(*ast.ReturnStmt); ok {
+			for _, st := range body[:n-1] {
+				sub.stmt(st)
+			}
+			for _, r := range rs.Results {
+				sub.calls(r)
+			}
+			s.out = append(s.out, sub.out...)
+			s.inlined += len(sub.out)
+			return true
+		}
+	}
+	sub.block(h.Body)
+	s.out = append(s.out, sub.out...)
+	s.inlined += len(sub.out)
+	return true
+}
 
 func (s *skel) emit(t string) { s.out = append(s.out, t) }
 
@@ -208,15 +484,15 @@ func (s *skel) calls(e ast.Expr) {
 			if sel, ok := t.Fun.(*ast.SelectorExpr); ok {
 				s.calls(sel.X)
 			}
-			name := ExprString(t.Fun)
-			if !ignoredCall(name) {
+			name := s.str(t.Fun)
+			if !ignoredCall(name) && !s.inline(t) {
 				s.emit(name)
 			}
 			return false
 		case *ast.UnaryExpr:
 			if t.Op == token.ARROW {
 				s.calls(t.X)
-				s.emit("<-" + ExprString(t.X))
+				s.emit("<-" + s.str(t.X))
 				return false
 			}
 		}
@@ -241,11 +517,11 @@ func (s *skel) stmt(st ast.Stmt) {
 		for _, l := range t.Lhs {
 			switch l.(type) {
 			case *ast.SelectorExpr, *ast.IndexExpr, *ast.StarExpr:
-				s.emit("assign:" + ExprString(l))
+				s.emit("assign:" + s.str(l))
 			}
 		}
 	case *ast.IncDecStmt:
-		s.emit("assign:" + ExprString(t.X) + t.Tok.String())
+		s.emit("assign:" + s.str(t.X) + t.Tok.String())
 	case *ast.DeclStmt:
 		if g, ok := t.Decl.(*ast.GenDecl); ok {
 			for _, sp := range g.Specs {
@@ -265,16 +541,16 @@ func (s *skel) stmt(st ast.Stmt) {
 			s.block(fl.Body)
 			s.emit("}")
 		} else {
-			s.emit("defer:" + ExprString(t.Call.Fun))
+			s.emit("defer:" + s.str(t.Call.Fun))
 		}
 	case *ast.GoStmt:
-		s.emit("go:" + ExprString(t.Call.Fun))
+		s.emit("go:" + s.str(t.Call.Fun))
 	case *ast.ReturnStmt:
-		before := len(s.out)
+		before := len(s.out) - s.inlined
 		for _, r := range t.Results {
 			s.calls(r)
 		}
-		if len(s.out) == before {
+		if len(s.out)-s.inlined == before {
 			s.emit("return")
 		} else {
 			s.emit("return^")
@@ -284,7 +560,7 @@ func (s *skel) stmt(st ast.Stmt) {
 			s.stmt(t.Init)
 		}
 		s.calls(t.Cond)
-		s.emit("if(" + ExprString(t.Cond) + "){")
+		s.emit("if(" + s.str(t.Cond) + "){")
 		s.block(t.Body)
 		if t.Else != nil {
 			s.emit("}else{")
@@ -300,12 +576,12 @@ func (s *skel) stmt(st ast.Stmt) {
 		if t.Init != nil {
 			s.stmt(t.Init)
 		}
-		s.emit("for(" + ExprString(t.Cond) + "){")
+		s.emit("for(" + s.str(t.Cond) + "){")
 		s.block(t.Body)
 		s.emit("}")
 	case *ast.RangeStmt:
 		s.calls(t.X)
-		s.emit("range(" + ExprString(t.X) + "){")
+		s.emit("range(" + s.str(t.X) + "){")
 		s.block(t.Body)
 		s.emit("}")
 	case *ast.SwitchStmt:
@@ -313,12 +589,12 @@ func (s *skel) stmt(st ast.Stmt) {
 			s.stmt(t.Init)
 		}
 		s.calls(t.Tag)
-		s.emit("switch(" + ExprString(t.Tag) + "){")
+		s.emit("switch(" + s.str(t.Tag) + "){")
 		for _, c := range t.Body.List {
 			cc := c.(*ast.CaseClause)
 			var conds []string
 			for _, e := range cc.List {
-				conds = append(conds, ExprString(e))
+				conds = append(conds, s.str(e))
 			}
 			if cc.List == nil {
 				s.emit("default:")
@@ -355,7 +631,7 @@ func (s *skel) stmt(st ast.Stmt) {
 		s.emit("}")
 	case *ast.SendStmt:
 		s.calls(t.Value)
-		s.emit(ExprString(t.Chan) + "<-")
+		s.emit(s.str(t.Chan) + "<-")
 	case *ast.BlockStmt:
 		s.block(t)
 	case *ast.BranchStmt:
